@@ -158,13 +158,13 @@ fn c55_char_to_string_unquoted_ascii() {
 
 // ---- token separation ----
 fn r_space_required(ac: u8, oc: u8) -> bool {
-    let digit = |c: u8| c >= b'0' && c <= b'9';
     (r_alnum(ac) && r_alnum(oc))                      // would merge into one name/number/variable
         || (r_alnum(ac) && oc == b'(')                // would become functional notation
         || (r_graphic(ac) && r_graphic(oc))           // would merge into one graphic token
         || (ac == b'0' && oc == b'\'')                // would start a 0'c character literal
         || (ac == b'\'' && oc == b'\'')               // would read as an escaped quote
-        || ((ac == b'-' || ac == b'+') && digit(oc))  // would read as a signed literal
+    // (a sign followed by a digit is NOT decided here: HCPrinter brackets the operand of a
+    // prefix minus - `- (1)` - so requires_space may say no; observed on the binary)
 }
 
 #[kani::proof]
